@@ -508,6 +508,199 @@ impl C12 {
         cx.tag("degrees2");
     }
 
+    // ---------------- part 5: sibling instances ----------------
+    /// A cell holding several instances: (optional parent placement) o [sibling 1, sibling 2, a plain sibling]
+    /// of one leaf, plus own shapes between the instances. Every flattened shape must be the image under the
+    /// placements on its own path only; compared as a multiset of exact images.
+    fn siblings(&self, pi: usize, s1: usize, cx: &mut Cx) {
+        let o8 = orient8();
+        let offs: [P; 2] = [(10, 20), (-300, 7)];
+        let third: P = (50, 60);
+        let parent_off: P = (1000, -17);
+        let rect = ((-2i64, -1i64), (5i64, 3i64));
+        let poly: Vec<P> = vec![(0, 0), (6, 0), (6, 2), (2, 2), (2, 5), (0, 5)];
+        let own = ((100i64, 200i64), (103i64, 201i64));
+        let parent: Option<IMap> = if pi == 0 { None } else { Some(IMap::placement(o8[pi - 1].0, o8[pi - 1].2, parent_off)) };
+        for s2 in 0..16usize {
+            for order in 0..3usize {
+                let key = format!("sib:{pi}:{s1}:{s2}:{order}");
+                if !cx.enter(&key) {
+                    continue;
+                }
+                cx.stats.executions += 1;
+                cx.stats.transitions += 3;
+                let sib = |k: usize| -> (bool, Option<f64>, u32, P) {
+                    let (r, a, q) = o8[k % 8];
+                    (r, a, q, offs[k / 8])
+                };
+                // listing order of the three siblings: plain last / plain first / plain in the middle
+                let plain = (false, None, 0u32, third);
+                let list: Vec<(bool, Option<f64>, u32, P)> = match order {
+                    0 => vec![sib(s1), sib(s2), plain],
+                    1 => vec![plain, sib(s1), sib(s2)],
+                    _ => vec![sib(s1), plain, sib(s2)],
+                };
+                let mut want: Vec<String> = vec![];
+                let outer = parent.unwrap_or_else(IMap::ident);
+                for (r, _a, q, off) in &list {
+                    let m = outer.after(&IMap::placement(*r, *q, *off));
+                    want.push(format!("rect {:?} {:?}", m.apply(rect.0), m.apply(rect.1)));
+                    want.push(format!("poly {:?}", poly.iter().map(|p| m.apply(*p)).collect::<Vec<P>>()));
+                }
+                want.push(format!("rect {:?} {:?}", outer.apply(own.0), outer.apply(own.1)));
+                want.sort();
+                let mut layers = Layers::default();
+                let lk = layers.add(Layer::from_num(1));
+                let leaf = Layout {
+                    name: "leaf".into(),
+                    insts: vec![],
+                    elems: vec![
+                        Element { net: None, layer: lk, purpose: LayerPurpose::Drawing, inner: Shape::Rect(Rect { p0: rp(rect.0), p1: rp(rect.1) }) },
+                        Element { net: None, layer: lk, purpose: LayerPurpose::Drawing, inner: Shape::Polygon(Polygon { points: poly.iter().map(|p| rp(*p)).collect() }) },
+                    ],
+                    annotations: vec![],
+                };
+                let leafc: Ptr<Cell> = Ptr::new(Cell::from(leaf));
+                let mid = Layout {
+                    name: "mid".into(),
+                    insts: list.iter().enumerate().map(|(i, (r, a, _q, off))| Instance { inst_name: format!("s{i}"), cell: leafc.clone(), loc: rp(*off), reflect_vert: *r, angle: *a }).collect(),
+                    elems: vec![Element { net: None, layer: lk, purpose: LayerPurpose::Drawing, inner: Shape::Rect(Rect { p0: rp(own.0), p1: rp(own.1) }) }],
+                    annotations: vec![],
+                };
+                let top = match pi {
+                    0 => mid,
+                    _ => {
+                        let midc: Ptr<Cell> = Ptr::new(Cell::from(mid));
+                        Layout { name: "top".into(), insts: vec![Instance { inst_name: "p".into(), cell: midc, loc: rp(parent_off), reflect_vert: o8[pi - 1].0, angle: o8[pi - 1].1 }], elems: vec![], annotations: vec![] }
+                    }
+                };
+                match guard(|| top.flatten().map_err(|e| format!("{e:?}"))) {
+                    Err(p) => cx.fail(&key, "siblings-panic", None, || p.short(), || Value::Null),
+                    Ok(Err(e)) => cx.fail(&key, "siblings-error", None, || format!("flatten failed: {}", truncate(&e, 200)), || Value::Null),
+                    Ok(Ok(elems)) => {
+                        cx.stats.evaluations += 1;
+                        let mut got: Vec<String> = elems
+                            .iter()
+                            .map(|e| match &e.inner {
+                                Shape::Rect(r) => format!("rect {:?} {:?}", ip(&r.p0), ip(&r.p1)),
+                                Shape::Polygon(pg) => format!("poly {:?}", pg.points.iter().map(ip).collect::<Vec<P>>()),
+                                Shape::Path(pa) => format!("path {:?}", pa.points.iter().map(ip).collect::<Vec<P>>()),
+                            })
+                            .collect();
+                        got.sort();
+                        if got != want {
+                            cx.outcome("siblings-mismatch");
+                            cx.fail(
+                                &key,
+                                "siblings-flatten",
+                                None,
+                                || format!("flatten of parent {:?} over siblings {list:?} (reflect, angle, quarter turns, loc): got {got:?}, exact images {want:?}", if pi == 0 { None } else { Some(o8[pi - 1]) }),
+                                || json!({"parent": pi, "siblings": format!("{list:?}"), "got": got, "want": want}),
+                            );
+                        } else {
+                            cx.outcome("siblings-exact");
+                        }
+                    }
+                }
+            }
+        }
+        cx.bulk_states(48, 48);
+        cx.tag("siblings");
+    }
+
+    // ---------------- part 6: angles next to a right angle, large coordinates ----------------
+    /// milli-degree departures from a multiple of 90 degrees
+    const NEAR: [i64; 20] = [1, -1, 4, -4, 10, -10, 50, -50, 100, -100, 250, -250, 500, -500, 750, -750, 810, -810, 1500, -1500];
+    /// (cos, sin) of 90*q degrees + md milli-degrees: the small angle evaluated directly, the quarter turns exactly
+    fn cs_near(q: u32, md: i64) -> (f64, f64) {
+        let x = (md as f64) / 1000.0 * std::f64::consts::PI / 180.0;
+        let (c, s) = (x.cos(), x.sin());
+        match q % 4 {
+            0 => (c, s),
+            1 => (-s, c),
+            2 => (-c, -s),
+            _ => (s, -c),
+        }
+    }
+    fn near(&self, q: u32, cx: &mut Cx) {
+        let pts: Vec<P> = vec![(0, 0), (1, 0), (0, 1), (3, -2), (20000, 0), (0, 20000), (5000, 5000), (-123456, 654321), (999999, 1000000), (100000, 0), (0, -1000000)];
+        let child_off: P = (100000, 0);
+        let mut layers = Layers::default();
+        let lk = layers.add(Layer::from_num(1));
+        for md in Self::NEAR {
+            let (c, s) = Self::cs_near(q, md);
+            let angle = 90.0 * q as f64 + md as f64 / 1000.0;
+            for r in [false, true] {
+                let key = format!("near:{q}:{md}:{}", r as u8);
+                if !cx.enter(&key) {
+                    continue;
+                }
+                cx.stats.executions += 1;
+                cx.stats.transitions += 2;
+                let off: P = (17, -1000);
+                // reference: reflect, rotate, translate; nested: the same placement over a plain child at child_off
+                let want1 = |p: P| -> (f64, f64) {
+                    let (x, y0) = (p.0 as f64, p.1 as f64);
+                    let y = if r { -y0 } else { y0 };
+                    (c * x - s * y + off.0 as f64, s * x + c * y + off.1 as f64)
+                };
+                let want2 = |p: P| -> (f64, f64) { want1((p.0 + child_off.0, p.1 + child_off.1)) };
+                let leaf = Layout {
+                    name: "leaf".into(),
+                    insts: vec![],
+                    elems: vec![Element { net: None, layer: lk, purpose: LayerPurpose::Drawing, inner: Shape::Polygon(Polygon { points: pts.iter().map(|p| rp(*p)).collect() }) }],
+                    annotations: vec![],
+                };
+                let leafc: Ptr<Cell> = Ptr::new(Cell::from(leaf));
+                let mid = Layout { name: "mid".into(), insts: vec![Instance { inst_name: "c".into(), cell: leafc, loc: rp(child_off), reflect_vert: false, angle: None }], elems: vec![], annotations: vec![] };
+                let midc: Ptr<Cell> = Ptr::new(Cell::from(mid));
+                let top = Layout { name: "top".into(), insts: vec![Instance { inst_name: "p".into(), cell: midc, loc: rp(off), reflect_vert: r, angle: Some(angle) }], elems: vec![], annotations: vec![] };
+                let res = guard(|| {
+                    let t = Transform::from_instance(&rp(off), r, Some(angle));
+                    let a: Vec<P> = pts.iter().map(|p| ip(&rp(*p).transform(&t))).collect();
+                    let t2 = Transform::cascade(&t, &Transform::from_instance(&rp(child_off), false, None));
+                    let b: Vec<P> = pts.iter().map(|p| ip(&rp(*p).transform(&t2))).collect();
+                    let f = top.flatten().map_err(|e| format!("{e:?}"))?;
+                    let cpts: Vec<P> = match f.get(0).map(|e| &e.inner) {
+                        Some(Shape::Polygon(pg)) => pg.points.iter().map(ip).collect(),
+                        _ => return Err("flatten did not return the polygon".to_string()),
+                    };
+                    Ok((a, b, cpts))
+                });
+                match res {
+                    Err(p) => cx.fail(&key, "near-right-panic", None, || p.short(), || Value::Null),
+                    Ok(Err(e)) => cx.fail(&key, "near-right-error", None, || e.clone(), || Value::Null),
+                    Ok(Ok((a, b, cpts))) => {
+                        cx.stats.evaluations += 3 * pts.len() as u64;
+                        let mut bad = None;
+                        for (k, p) in pts.iter().enumerate() {
+                            for (which, img, w) in [("from_instance", &a, want1(*p)), ("cascade", &b, want2(*p)), ("flatten", &cpts, want2(*p))] {
+                                let (gx, gy) = (img[k].0 as f64, img[k].1 as f64);
+                                if (gx - w.0).abs() > 0.5 + 1e-5 || (gy - w.1).abs() > 0.5 + 1e-5 {
+                                    bad = Some((which, *p, img[k], w));
+                                }
+                            }
+                        }
+                        if let Some((which, p, got, w)) = bad {
+                            cx.outcome("near-right-mismatch");
+                            cx.fail(
+                                &key,
+                                &format!("near-right-{which}"),
+                                None,
+                                || format!("{which}: reflect={r} angle={angle} loc={off:?}{} maps {p:?} to {got:?}; exact ({:.4},{:.4}), tolerance 0.5", if which == "from_instance" { String::new() } else { format!(" over a plain child at {child_off:?}") }, w.0, w.1),
+                                || json!({"reflect": r, "angle": angle, "loc": off, "point": p, "got": got, "want": [w.0, w.1]}),
+                            );
+                        } else {
+                            cx.outcome("near-right-within-half-unit");
+                        }
+                    }
+                }
+            }
+        }
+        cx.bulk_states(40, 40);
+        cx.tag("near-right");
+    }
+
     fn words(depth: usize, first: (usize, usize)) -> Vec<Vec<(usize, usize)>> {
         let mut out: Vec<Vec<(usize, usize)>> = vec![vec![first]];
         for _ in 1..depth {
@@ -569,7 +762,7 @@ impl Driver for C12 {
         let d = tier.pick(3, 4);
         Describe {
             rule: format!(
-                "single placements: reflect in {{f,t}} x angle in {{None,0,90,180,270,-90,-180,-270,-360,360,450,-630,-0}} x offsets {{0,1,-7,1000,-2^31,2^31-1}}^2 x every point of the 9x9 grid (-4..4)^2 plus the four i32 corners, judged three ways (from_instance == cascade(translate, cascade(rotate, reflect_vert)) == exact integer map); chains: every word of depth 1..={d} over the 8 orientations x 3 offsets per level, as cascaded Transforms on 6 probe points and through the real Layout::flatten on a nested layout holding a rectangle, an asymmetric L polygon and a path (shape-by-shape exact images; polygon orientation flips iff odd number of reflections); general angles: every integer degree 0..359 x reflect x 2 offsets x the grid and three large points, within 0.5+1e-5 of a double-precision reference with exact octant reduction; nested general angles: parent at every integer degree x reflect over a child in each of the 8 right-angle orientations and one general angle x 3 non-zero child offsets, as cascaded Transforms and through Layout::flatten, every point within half a unit of the exact real composition (rounded once). A state is one placement / chain word; non-trivial = not the identity orientation."
+                "single placements: reflect in {{f,t}} x angle in {{None,0,90,180,270,-90,-180,-270,-360,360,450,-630,-0}} x offsets {{0,1,-7,1000,-2^31,2^31-1}}^2 x every point of the 9x9 grid (-4..4)^2 plus the four i32 corners, judged three ways (from_instance == cascade(translate, cascade(rotate, reflect_vert)) == exact integer map); chains: every word of depth 1..={d} over the 8 orientations x 3 offsets per level, as cascaded Transforms on 6 probe points and through the real Layout::flatten on a nested layout holding a rectangle, an asymmetric L polygon and a path (shape-by-shape exact images; polygon orientation flips iff odd number of reflections); general angles: every integer degree 0..359 x reflect x 2 offsets x the grid and three large points, within 0.5+1e-5 of a double-precision reference with exact octant reduction; nested general angles: parent at every integer degree x reflect over a child in each of the 8 right-angle orientations and one general angle x 3 non-zero child offsets, as cascaded Transforms and through Layout::flatten, every point within half a unit of the exact real composition (rounded once); sibling instances: (no parent / a parent in each of the 8 orientations) over a cell holding three instances of one leaf - two in every pair of the 8 orientations x 2 offsets and a plain one, listed last / first / in the middle - and an own rectangle, every flattened shape compared with the exact image under the placements on its own path only (multiset); angles next to a right angle: 90q + d for d in +-{{0.001, 0.004, 0.01, 0.05, 0.1, 0.25, 0.5, 0.75, 0.81, 1.5}} degrees x reflect on points with coordinates up to 1e6, as from_instance, as a cascade over a plain child at (100000, 0) and through Layout::flatten, within half a unit. A state is one placement / chain word; non-trivial = not the identity orientation."
             ),
             assumptions: vec!["general angles: the half unit is the statement's tolerance; 1e-5 covers double-precision evaluation".into()],
             excluded: vec!["non-integer angles and magnification".into()],
@@ -592,6 +785,14 @@ impl Driver for C12 {
         for deg in 0..360 {
             v.push(format!("DEG:{deg}"));
             v.push(format!("DEG2:{deg}"));
+        }
+        for pi in 0..9 {
+            for s1 in 0..16 {
+                v.push(format!("SIB:{pi}:{s1}"));
+            }
+        }
+        for q in 0..4 {
+            v.push(format!("NEAR:{q}"));
         }
         v
     }
@@ -623,6 +824,8 @@ impl Driver for C12 {
             }
             "DEG" => self.degrees(parts[1].parse().unwrap(), cx),
             "DEG2" => self.degrees2(parts[1].parse().unwrap(), cx),
+            "SIB" => self.siblings(parts[1].parse().unwrap(), parts[2].parse().unwrap(), cx),
+            "NEAR" => self.near(parts[1].parse().unwrap(), cx),
             _ => panic!("MACHINERY: C12 bad unit {unit}"),
         }
     }
@@ -638,6 +841,14 @@ impl Driver for C12 {
         if let Some(r) = key.strip_prefix("one:") {
             let oi: usize = r.split(':').next().unwrap().parse().unwrap();
             return self.single(oi, cx);
+        }
+        if let Some(r) = key.strip_prefix("sib:") {
+            let f: Vec<usize> = r.split(':').map(|x| x.parse().unwrap()).collect();
+            return self.siblings(f[0], f[1], cx);
+        }
+        if let Some(r) = key.strip_prefix("near:") {
+            let q: u32 = r.split(':').next().unwrap().parse().unwrap();
+            return self.near(q, cx);
         }
         if let Some(r) = key.strip_prefix("deg2:") {
             let d: u32 = r.split(':').next().unwrap().parse().unwrap();
@@ -663,7 +874,7 @@ impl Driver for C12 {
         json!({"case": key})
     }
     fn guards(&self, tier: Tier, stats: &Stats, _d: u64) -> Result<(), String> {
-        require_tags(stats, &["degrees2", "reflected", "plain", "none", "0", "90", "180", "270", "-90", "-270", "450", "-630", "depth1", "depth2", "depth3"])?;
+        require_tags(stats, &["degrees2", "siblings", "near-right", "reflected", "plain", "none", "0", "90", "180", "270", "-90", "-270", "450", "-630", "depth1", "depth2", "depth3"])?;
         if tier.is_thorough() {
             require_tags(stats, &["depth4"])?;
         }
